@@ -1,18 +1,18 @@
-\* GEN_quota -- generated by mkcfg.py; user q1 may hold one allocation at a time (counting quota handler): retransmission and second Allocate are answered before the quota is asked
+\* GEN_veto -- generated by mkcfg.py; the operator's verdict about (c1, A) changes at run time (a block list behind the PermissionHandler)
 SPECIFICATION Spec
 VIEW View
 CONSTANTS
-  Clients = {"c1", "c2"}
-  Users = {"q1", "u1"}
-  PeerIPs = {"A"}
+  Clients = {"c1"}
+  Users = {"u1"}
+  PeerIPs = {"A", "B"}
   PeerPorts = {1}
   Fam <- MCFam
   ListenFam <- MCListenFam
   Strict = FALSE
   ReqFams = {0}
   ChanNums = {16384}
-  LifeReqs <- MCLifeAbsent0
-  Txids = {"t1", "t2"}
+  LifeReqs <- MCLifeAbsent
+  Txids = {"t1"}
   Pays = {"p"}
   Lens <- MCLenSmall
   InboundMTU = 1600
@@ -22,10 +22,10 @@ CONSTANTS
   ChanTO = 3
   MaxLife = 3600
   Denied <- MCNoDenied
-  Vetoable = {}
+  Vetoable <- MCVetoable
   Toks = {"none"}
   ResvTO = 30
   QuotaDenied = {}
-  MaxDepth = 5
+  MaxDepth = 6
 CONSTRAINT DepthBound
 ACTION_CONSTRAINT EmitEdge
